@@ -55,6 +55,7 @@ EXPECTED_PROBES = [
     "initial_load_origin_from_text",
     "retry_after_failed_commit_refused",
     "plain_zone_holds_an_empty_node",
+    "operation_failed_midway_then_retried",
 ]
 
 
@@ -101,6 +102,7 @@ def gen_case(seed, tier):
         "base_exc_parity": rng.choice([0, 1]),
         "load_text_no_origin": rng.random() < 0.12,
         "btree_t": rng.choice([3, 3, 4, 127]),
+        "alloc_in_op": rng.randrange(12) if rng.random() < 0.5 else None,
         "empty_node": rng.choice([n for n in names if n != "@"] or ["a"]) if rng.random() < 0.25 else None,
     }
 
@@ -114,9 +116,10 @@ class _Ctx:
         self.log = log
 
 
-def _exec_op(ctx, b, txn, m, op, check=True):
+def _exec_op(ctx, b, txn, m, op, check=True, real_done=None):
     """Run op on real txn and on the model; compare outcome and content.
-    Returns True when the op took effect (no exception)."""
+    Returns True when the op took effect (no exception).  real_done: the real side was executed
+    already ("ok" or the exception's class name)."""
     want_exc = None
     m_before = m.copy() if check else None
     try:
@@ -125,12 +128,15 @@ def _exec_op(ctx, b, txn, m, op, check=True):
         want_exc = e.name
         m.content = m_before.content if m_before is not None else m.content
     got_exc = None
-    try:
-        Z.apply_real(b, txn, op)
-    except Z.Planned:
-        raise
-    except Exception as e:  # noqa: BLE001
-        got_exc = type(e).__name__
+    if real_done is not None:
+        got_exc = None if real_done == "ok" else real_done
+    else:
+        try:
+            Z.apply_real(b, txn, op)
+        except Z.Planned:
+            raise
+        except Exception as e:  # noqa: BLE001
+            got_exc = type(e).__name__
     tag = f"[{b.kind}/{'rel' if b.relativize else 'abs'}] op {Z.describe(op)}"
     if got_exc != want_exc:
         raise Violation(
@@ -295,7 +301,51 @@ def _install_hook(txn, hook, counter):
         txn.check_delete_name(fire)
 
 
-def _run_write_txn(ctx, b, m, t, abort_at=None, hook=None, final=True, base_exc=False, commit_fault=False):
+def _attempt_with_node_alloc_failure(ctx, b, txn, work, op, pre):
+    """Fault inside an operation: the first node the operation allocates fails (MemoryError out of
+    zone.node_factory).  The failed attempt must have no effect at all -- inside the transaction or
+    on the published zone -- and the same operation, tried again, must behave as if nothing had
+    happened.  Returns what _exec_op returns for the operation."""
+    cls = type(b.zone)
+    orig = cls.__dict__.get("node_factory", None)
+    inherited = orig is None
+    real_factory = b.zone.node_factory
+    fired = [False]
+
+    def failing():
+        if not fired[0]:
+            fired[0] = True
+            raise MemoryError("injected allocation failure creating a node")
+        return real_factory()
+
+    cls.node_factory = staticmethod(failing)
+    outcome = "ok"
+    try:
+        try:
+            Z.apply_real(b, txn, op)
+        except MemoryError:
+            outcome = "MemoryError"
+        except Z.Planned:
+            raise
+        except Exception as e:  # noqa: BLE001
+            outcome = type(e).__name__
+    finally:
+        if inherited:
+            del cls.node_factory
+        else:
+            cls.node_factory = orig
+    if not fired[0] or outcome != "MemoryError":
+        # the operation allocates no node (or failed for its own reasons first): an ordinary operation
+        return _exec_op(ctx, b, txn, work, op, real_done=outcome)
+    ctx.res.faults.inc("alloc_failure_inside_operation")
+    ctx.res.probes.inc("operation_failed_midway_then_retried")
+    tag = f"[{b.kind}/{'rel' if b.relativize else 'abs'}] op {Z.describe(op)}"
+    Z.compare("C10:partial-effect-of-failed-operation", b, b.snap_txn(txn), work.snapshot(), f"{tag}: after the operation failed allocating a node")
+    Z.compare("C10:published-before-commit", b, b.snap_nodes(), pre, f"{tag}: published zone after a failed operation inside an open transaction")
+    return _exec_op(ctx, b, txn, work, op)
+
+
+def _run_write_txn(ctx, b, m, t, abort_at=None, hook=None, final=True, base_exc=False, commit_fault=False, alloc_in_op=None):
     """Execute one write transaction.  abort_at=k: raise after k ops inside `with`.
     Returns the model after the transaction (unchanged model if not committed)."""
     res = ctx.res
@@ -329,7 +379,12 @@ def _run_write_txn(ctx, b, m, t, abort_at=None, hook=None, final=True, base_exc=
                         raise Z.PlannedBase("abort")
                     raise Z.Planned("abort")
                 w_before = work.copy() if final else None
-                ok = _exec_op(ctx, b, txn, work, op)
+                if alloc_in_op == k:
+                    ok = _attempt_with_node_alloc_failure(ctx, b, txn, work, op, pre)
+                else:
+                    ok = _exec_op(ctx, b, txn, work, op)
+                # the published node map is replaced only at commit
+                Z.compare("C10:published-before-commit", b, b.snap_nodes(), pre, f"[{b.kind}] published zone while the transaction is open, after {Z.describe(op)}")
                 if ok:
                     mutated_ok = True
                     if final:
@@ -531,6 +586,10 @@ def _run_config(ctx, case, kind, relativize):
                 # possible, so carry the committed model forward
                 m = r
                 continue
+        if n and case.get("alloc_in_op") is not None:
+            # a node allocation fails inside operation k; the operation is tried again; the body is then
+            # left through an exception after the last operation (nothing is committed)
+            _run_write_txn(ctx, b, m, t, abort_at=n, final=False, alloc_in_op=case["alloc_in_op"] % n)
         if t.get("hook"):
             # the hook fault run never commits: if the hook does not fire the
             # body is left through an exception after the last operation
